@@ -293,6 +293,7 @@ def run(chk):
     generic_orders(chk)
     user_names(chk)
     compose.run(chk, "types")
+    compose.run_members(chk, "types")
     # MC_C09_imported (shared with C09): a user type of ANOTHER crate keeps its (declared) name at its only reference, whatever the
     # shape of the type expression around it (folder output)
     from .c09 import imported
